@@ -54,13 +54,13 @@ def one(acc, isa, text, expect_bytes, clause, addr=0x200, consts=(), yaml=False,
     if expect_bytes is None:
         # a constraint is enforced whatever outputs are requested: the same statement with --no-binary and a pretty print only
         _NB[0] += 1
-        fmt = ('listing', 'hex', 'intel_hex', 'minhex')[_NB[0] % 4]
+        fmt = ('listing', 'hex', None, 'intel_hex', 'minhex', None)[_NB[0] % 6]          # None: --no-binary alone, nothing is written at all
         case2 = Case(isa, src, start=addr, isa_yaml=yaml, binary=False, pretty=fmt)
         out2 = acc.run(case2)
-        spec2 = dict(spec, mode=f'--no-binary -p -t {fmt}')
+        spec2 = dict(spec, mode=f'--no-binary -p -t {fmt}' if fmt else '--no-binary')
         msg2 = judge_expect(spec2, [out2])
         if msg2:
-            acc.violation([case2], spec2, f'{text!r} [--no-binary -t {fmt}]: {msg2}', [out2])
+            acc.violation([case2], spec2, f'{text!r} [{spec2["mode"]}]: {msg2}', [out2])
         acc.judge(clause=clause + '/no-binary', nontrivial_distinct=True)
     return out
 
